@@ -406,11 +406,11 @@ def cpu_scaling_worker(arg):
     col = core.Collector()
     fam = FAMILIES[name]
 
-    def cpu(data):
+    def cpu(data, k):
         best = None
         for _ in range(2):
             p = impl.Parser()
-            core.guard_enter(data[:200])
+            core.guard_enter(b"@family:%s:%d" % (name.encode(), k))
             gc_was = gc.isenabled()
             gc.disable()
             t = time.process_time()
@@ -428,10 +428,10 @@ def cpu_scaling_worker(arg):
         return best
 
     small, big = fam(n), fam(8 * n)
-    t1, t8 = cpu(small), cpu(big)
+    t1, t8 = cpu(small, n), cpu(big, 8 * n)
     slow = t8 > 20 * t1 + 0.5
     if slow:
-        t1b, t8b = cpu(small), cpu(big)
+        t1b, t8b = cpu(small, n), cpu(big, 8 * n)
         slow = t8b > 20 * t1b + 0.5
         t1, t8 = min(t1, t1b), min(t8, t8b)
     col.case(key=b"cpu-" + name.encode(), nontrivial=True, classes=("src:cpu-scaling",),
@@ -592,28 +592,65 @@ def shrink(case, bucket, budget):
     return c
 
 
+def _iso_killed(k):
+    c = core.Collector()
+    c.fail("killed", {}, {"signal": k.signum})
+    return c
+
+
+def _rebuild(current):
+    """Inputs larger than the shared slot are announced by a marker @family:<name>:<n>."""
+    if current.startswith(b"@family:"):
+        _, name, n = current.decode().split(":")
+        return FAMILIES[name](int(n))
+    return current
+
+
+def killed_alone(data):
+    """Parse `data` alone in a forked child under the CPU kill limit. -> True if that child is killed, too
+    (or stopped by the interpreter-level 3 s guard, or measured slow twice)."""
+    def one(_):
+        c = core.Collector()
+        o = impl.parse_outcome(data)
+        c.case(nontrivial=False)
+        if o.exc in ("CpuLimit", "CpuSlow", "StepLimit"):
+            # not killed, but stopped by the 3 s guard inside the interpreter: just as slow
+            c.fail("slow", {}, {"exc": o.exc})
+        return c
+    res = core.run_shards(one, [0], on_killed=_iso_killed)
+    return bool(res.fails)
+
+
 def on_killed(k):
     """A worker died inside the code under test: with SIGXCPU this is a parse
-    that burnt more than core.CPU_KILL_AFTER seconds of CPU inside C code."""
+    that burnt more than core.CPU_KILL_AFTER seconds of CPU inside C code.  The
+    input is parsed again, alone, in fresh children: only a kill that repeats
+    (twice) is a finding.  A kill that does not repeat - the process's CPU time also
+    contains garbage collection and page-fault work of a worker that has run for
+    minutes - costs the rest of that worker's cases, which is reported as
+    inconclusive, not as a violation."""
     col = core.Collector()
     if k.signum == 24:  # SIGXCPU
-        col.case(key=k.current, nontrivial=True, classes=("killed-by-cpu-limit",))
-        col.fail("hang|killed-after-%ds-cpu-inside-one-parse" % core.CPU_KILL_AFTER, {"data": k.current, "as_str": False, "isolate": True},
-                 {"input": k.current, "signal": k.signum, "shard": repr(k.shard)[:200]})
+        data = _rebuild(k.current)
+        if killed_alone(data) and killed_alone(data):
+            col.case(key=k.current, nontrivial=True, classes=("killed-by-cpu-limit",))
+            col.fail("hang|killed-after-%ds-cpu-inside-one-parse" % core.CPU_KILL_AFTER, {"data": k.current, "as_str": False, "isolate": True},
+                     {"input": k.current[:2000], "bytes": len(data), "signal": k.signum, "shard": repr(k.shard)[:200]})
+        else:
+            col.inconclusive.append("a worker was killed by the CPU limit while parsing an input that parses in time when tried alone, twice "
+                                    "(not reproducible: no finding); the rest of its cases (%s) was not explored; input: %r"
+                                    % (repr(k.shard)[:80], k.current[:120]))
     else:
         col.inconclusive.append("worker died with signal/exit %s on %r" % (k.signum, k.current[:200]))
     return col
 
 
 def isolated_parse(data):
-    """Parse in a forked child under the CPU kill limit. -> True if the child was killed."""
-    def one(_):
-        c = core.Collector()
-        impl.parse_outcome(data)
-        c.case(nontrivial=False)
-        return c
-    res = core.run_shards(one, [0], on_killed=on_killed)
-    return [(b, f["detail"]) for b, f in res.fails.items()]
+    """-> list of (bucket, detail): non-empty if parsing `data` alone is killed by the CPU limit (twice)."""
+    data = _rebuild(data)
+    if killed_alone(data) and killed_alone(data):
+        return [("hang|killed-after-%ds-cpu-inside-one-parse" % core.CPU_KILL_AFTER, {"bytes": len(data)})]
+    return []
 
 
 def main(tier, seed, t0):
